@@ -341,6 +341,18 @@ impl Universe {
     pub fn all_ops(&self) -> u64 {
         self.lock().all_ops
     }
+    /// wait until the storage has seen no operation for `quiet` (at most `max`): commands hand work to detached
+    /// threads which may still be writing when the call has returned
+    pub fn settle(&self, quiet: Duration, max: Duration) {
+        let start = std::time::Instant::now();
+        loop {
+            let n = self.all_ops();
+            std::thread::sleep(quiet);
+            if self.all_ops() == n || start.elapsed() > max {
+                return;
+            }
+        }
+    }
 }
 
 #[derive(Clone)]
